@@ -17,11 +17,18 @@ static MCase decode(Src &s) {
     std::vector<RefPattern> refs;
     for (auto &p : c.table) refs.push_back(refParsePattern(p.text));
     int nu = (int) s.weighted({1, 3, 3, 2, 1, 1}) + 1;
-    std::string prevEff; bool prevCommon = false;
+    std::string prevEff; bool prevCommon = false; int prevMatched = -1;
     for (int u = 0; u < nu; u++) {
         Unit un;
-        int mode = (int) s.weighted({6, 3, 2, 1});    // spelling of an entry, relative continuation, undefined, common
-        const GenPattern &e = c.table[s.range(0, c.table.size() - 1)];
+        int mode = (int) s.weighted({5, 5, 2, 1});    // spelling of an entry, relative continuation, undefined, common
+        size_t ei = s.range(0, c.table.size() - 1);
+        if (mode == 1 && prevMatched >= 0 && !c.table[(size_t) prevMatched].common && s.prob(3, 4)) {
+            // prefer a sibling of the previous command (same first keyword), so that relative headers usually resolve
+            std::vector<size_t> sib;
+            for (size_t i = 0; i < c.table.size(); i++) if (!c.table[i].common && c.table[i].kw[0].name == c.table[(size_t) prevMatched].kw[0].name) sib.push_back(i);
+            if (!sib.empty()) ei = sib[s.range(0, sib.size() - 1)];
+        }
+        const GenPattern &e = c.table[ei];
         Spelling sp = spellPattern(s, e);
         for (auto &m : sp.mnemonics) m = randCaseOf(s, m);
         bool q = sp.query;
@@ -49,7 +56,7 @@ static MCase decode(Src &s) {
         un.lead = u > 0 ? wsp(s, 2) : (s.prob(1, 6) ? wsp(s, 2) : "");
         int np = un.matched >= 0 ? c.nReaders[(size_t) un.matched] : 0;
         for (int i = 0; i < np; i++) { int v = s.irange(-999, 999); un.ints.push_back(v); un.params += (i ? "," : " ") + wsp(s, 1) + std::to_string(v) + (i + 1 < np ? wsp(s, 1) : ""); }
-        prevEff = un.eff; prevCommon = un.eff[0] == '*';
+        prevEff = un.eff; prevCommon = un.eff[0] == '*'; prevMatched = un.matched;
         c.units.push_back(un);
     }
     c.term = s.pick(std::vector<std::string>{"\n", "\r\n", "\r"});
